@@ -144,6 +144,51 @@ def rec(matches):
     return [(tuple(m.parts), m.path, canon(unwrap(m.obj))) for m in matches]
 
 
+def run_reconfigured_while_alive(ctx):
+    """ONE environment whose configuration is changed (integer limits narrowed and widened, type checks switched) while
+    results of earlier async calls with the same query text are still alive: after every change the sync and the async
+    entry points give the same outcome for that text - the same values or a refusal of the same class."""
+    import asyncio
+
+    import jsonpath
+
+    doc = {"a": [1, {"b": 2}, "xy"], "b": list(range(10))}
+
+    def outcome(fn):
+        o = impl.call(fn)
+        return ("ok", canon(o.value)) if o.ok else ("raised", type(o.exc).__name__)
+    steps = [("limits narrowed", lambda e: (setattr(e, "max_int_index", 5), setattr(e, "min_int_index", -5))), ("limits widened", lambda e: (setattr(e, "max_int_index", 2 ** 53 - 1), setattr(e, "min_int_index", -(2 ** 53) + 1))),
+             ("type checks off", lambda e: setattr(e, "well_typed", False)), ("type checks on", lambda e: setattr(e, "well_typed", True))]
+    for text in ("$.b[7]", "$.b[-6:]", "$[?count(@..*)]", "$[?@.* == 1]", "$.a[?length(@.b) == 1]"):
+        env = jsonpath.JSONPathEnvironment()
+        alive = []
+
+        async def both():
+            for label, change in [("as built", lambda e: None)] + steps + steps:
+                change(env)
+                sync = outcome(lambda: env.findall(text, doc))
+                try:
+                    got = ("ok", canon(await env.findall_async(text, doc)))
+                except Exception as e:  # noqa: BLE001
+                    got = ("raised", type(e).__name__)
+                try:
+                    it = await env.finditer_async(text, doc)
+                    alive.append(it)   # (never advanced to the end: it stays alive across the next changes)
+                    got_it = ("ok", canon([m.obj async for m in await env.finditer_async(text, doc)]))
+                except Exception as e:  # noqa: BLE001
+                    got_it = ("raised", type(e).__name__)
+                ctx.evaluation(2)
+                ctx.count("sync_async_pairs_after_a_configuration_change")
+                if got != sync or got_it != sync:
+                    return {"text": text, "after": label, "sync": repr(sync)[:200], "findall_async": repr(got)[:200], "finditer_async": repr(got_it)[:200]}
+            return None
+        bad = asyncio.run(both())
+        ctx.case(h("reconfigured-while-alive", text), True)
+        if bad:
+            ctx.violation("async-differs-from-sync-after-the-environment-was-reconfigured", {"kind": "recursion-limit", "limit": None}, bad)
+            return
+
+
 def run_recursion_limit(ctx, limit):
     """Documents (Python objects) nested from a quarter of the interpreter's recursion limit to three times it. Both
     calls are made from the same coroutine, i.e. with the same stack below them. Far inside the limit both must
@@ -420,6 +465,7 @@ def run(spec, ctx):
     env = jsonpath.DEFAULT_ENV
     if spec.get("kind") == "recursion-limit":
         run_recursion_limit(ctx, spec["limit"])
+        run_reconfigured_while_alive(ctx)
         return
     if spec.get("kind") == "streams":
         run_streams(ctx, spec["n"])
@@ -549,6 +595,7 @@ def replay(case, ctx):
     install()
     if case.get("kind") == "recursion-limit":
         run_recursion_limit(ctx, case.get("limit"))
+        run_reconfigured_while_alive(ctx)
         return
     if case.get("kind") == "shared":
         run_shared(ctx, case["text"], case["hist"], case)
